@@ -418,6 +418,21 @@ class Facts:
             raise AnchorMissing("function %s" % q)
         return l[0]
 
+    def is_new_fn(self, q):
+        """True for a function that did not exist on the reference tree (tables/known_fns.txt): a helper introduced by a later
+        edit.  The engines treat such a function as transparent — its body is read at its call sites — so that extracting
+        statements into a helper does not change what a rule sees."""
+        known = getattr(Facts, "_known_fns", None)
+        if known is None:
+            path = os.path.join(os.path.dirname(os.path.dirname(os.path.abspath(__file__))), "tables", "known_fns.txt")
+            try:
+                known = Facts._known_fns = frozenset(l.strip() for l in open(path) if l.strip())
+            except OSError:
+                known = Facts._known_fns = frozenset()
+        if not known:
+            return False
+        return q not in known
+
     def fn_opt(self, q):
         l = self.fns.get(q)
         return l[0] if l else None
